@@ -81,8 +81,55 @@ def fanout(P, R):
         # no early exit from the loop: no break/return inside (the call block's loop has a single exit: the bound)
         inits = [t for t in f.stores() if t.ev['k'] == 'store' and iv and is_var(t.ev.get('lhs'), iv[0]) and t.ev.get('op') == '=']
         R.ob('C18.GRD.1', bool(inits) and all(const_of(final(t.ev.get('rhs'))) == 0 for t in inits), s, 'the loop starts at the first destination', key='start:%s' % which, nontrivial=False)
+    # no early exit: a delivery loop is only left through its own bound test
+    for s in calls:
+        loop = {b for b in f.reach([s.bid]) if s.bid in f.reach([b])}
+        for b in sorted(loop):
+            for e in f.out[b]:
+                if e.dst in loop or f.blocks[e.dst].get('noreturn'):
+                    continue
+                r = e.rel()
+                okexit = bool(r) and r[1] == '>=' and on_path(r[2], 'used') and on_path(r[2], 'logs')
+                R.ob('C18.GRD.1', okexit, s, 'the delivery loop is left only when every destination of the vector was served (exit on %s)' % e.describe(), key='loop-exit:%s' % ('bound' if okexit else e.describe()))
     R.ob('C18.GRD.1', seen == {'facility', 'star'}, f, 'both the facility\'s own and the `*` destinations are served', key='both')
     R.floor('C18.GRD.1', 8)
+
+
+def range_bounds(P, R, rule='C18.TAB.2'):
+    """Severity sets, table part: wherever the set parser walks upwards over the severities ("*", ">", ">=") the walk
+    ends at the last enumerator - the loop bound is `< LOG_NUM_SEVERITIES` or `<= <last>` - so no open-ended range
+    loses the highest severity."""
+    f = P.need_fn('log_parse_type_sevset')
+    enum = P.enums.get('log_severity', [])
+    N = None
+    for c in enum:
+        if c['name'] == 'LOG_NUM_SEVERITIES':
+            N = c['v']
+    if N is None:
+        raise AnalysisBroken('LOG_NUM_SEVERITIES has vanished')
+    counters = set()
+    for s in f.sites():
+        if s.ev['k'] == 'bitset' and isinstance(s.ev.get('bitexpr'), dict):
+            counters |= set(vars_in(s.ev['bitexpr']))
+    n = 0
+    for b in f.reachable_blocks():
+        if b not in f.reach([x.dst for x in f.out[b]]):
+            continue        # not on a cycle
+        for e in f.out[b]:
+            if e.label != 'true' or e.cond is None:
+                continue
+            r = e.rel()
+            if not r or not isinstance(const_of(r[2]), int):
+                continue
+            vs = set(vars_in(r[0]))
+            if not (vs & counters) or r[1] not in ('<', '<='):
+                continue
+            n += 1
+            c = const_of(r[2])
+            last = c - 1 if r[1] == '<' else c
+            R.ob(rule, last == N - 1, P.relloc((f.blocks[b].get('term') or {}).get('loc', '?')), 'an upward walk over the severities continues while %s: it ends at severity %d, the last one is %d' % (e.describe(), last, N - 1), key='sev-upper:%s' % ('ok' if last == N - 1 else e.describe()))
+            R.obligations[-1]['function'] = f.name
+    R.floor(rule, 2, '"*" and ">" walks')
 
 
 def final(e):
@@ -251,6 +298,7 @@ def run(P, R, tier):
     h = whole_entry(P, R)
     reset_then_attach(P, R, h)
     operator_fresh(P, R)
+    range_bounds(P, R)
     wiring(P, R, h)
     record_format(P, R)
     # destinations are string (list) values: a reload reroutes only if the setters notice every change
